@@ -9,8 +9,8 @@ import RarenaVerif.Proofs.SpecPolicy
 
 namespace Rarena
 
-/-- concrete history operations: the abstract ones plus a client write of byte `b` over the whole
-    accessible range of the `i`-th held handle -/
+/-- concrete history operations: the abstract ones (allocations, release, detach, the mutators, `clear`,
+    `truncate`) plus a client write of byte `b` over the whole accessible range of the `i`-th held handle -/
 inductive COp where
   | op (o : HOp)
   | fill (i : Nat) (b : UInt8)
@@ -44,6 +44,14 @@ def cstep (c : Cfg) (fuel : Nat) (x : CSess) : COp → M CSess
   | .op (.setMinSeg n) => pure { x with st := setMinSeg c x.st n }
   | .op (.incDiscarded n) => pure { x with st := x.st.incDiscarded c n }
   | .op .discardFreelist => do let (_, st) ← discardFreelist c x.st fuel; pure { x with st := st }
+  | .op .clear =>
+    match clear c x.st with
+    | .ok st => pure { st := st, held := [], detached := [] }
+    | .error _ => pure x
+  | .op (.truncate n) =>
+    match truncate c x.st n with
+    | .ok st => pure { x with st := st }
+    | .error _ => pure x
   | .fill i b =>
     match x.held[i]? with
     | none => pure x
@@ -58,13 +66,27 @@ def COp.abs : COp → Option HOp
   | .op o => some o
   | .fill _ _ => none
 
-/-- arguments are values of the API's types -/
+/-- arguments are values of the API's types; `truncate n` keeps the capacity guard of `CInv`
+    (`cap + 8192 ≤ 2^32`: the new capacity is `max n allocated` and `allocated ≤ cap` already satisfies it) -/
 def COp.ok : COp → Prop
   | .op (.allocBytes n) => n < TWO32
   | .op (.allocAligned ts ta ex) => TyOK ts ta ∧ ex < TWO32
   | .op (.allocT ts ta) => TyOK ts ta
   | .op (.setMinSeg n) => n < TWO32
   | .op (.incDiscarded n) => n < TWO32
+  | .op (.truncate n) => n + 8192 ≤ TWO32
+  | _ => True
+
+/-- is the operation a `truncate` (the only call that changes the capacity) -/
+def COp.isTruncate : COp → Bool
+  | .op (.truncate _) => true
+  | _ => false
+
+/-- the operation exists for this flavour, and the traversal fuel of the model covers the capacity it asks for:
+    `truncate` is a method of `unsync::Arena` only, and after `truncate n` the free list can have up to
+    `max n allocated / 9` nodes -/
+def COp.fits (c : Cfg) (fuel : Nat) : COp → Prop
+  | .op (.truncate n) => c.sync = false ∧ n + 2 ≤ fuel
   | _ => True
 
 -- CHANGED: added the field `nonnull` (every held handle has `memSize ≠ 0`). Without it `sim_step`/`sim_run` are
@@ -300,11 +322,12 @@ theorem sim_fill (c : Cfg) (x : CSess) (h : HState) (free : List Seg) (i : Nat) 
     rw [Mem.rd_fill]; split <;> first | rfl | omega
 
 /-- one step: no trap, no divergence, same handles, invariant kept; bytes of every live extent other than the
-    one the operation releases or writes through are unchanged -/
+    one the operation releases or writes through are unchanged; the capacity changes only by `truncate` -/
 theorem sim_step (c : Cfg) (x : CSess) (h : HState) (free : List Seg) (op : COp) (fuel : Nat)
     (hr : Rel c x h free) (hro : c.ro = false) (hop : op.ok) (hfuel : x.st.cap + 2 ≤ fuel) :
     ∃ x' free', cstep c fuel x op = .ok x' ∧ Rel c x' (h.stepOpt c op.abs) free' ∧
-      x'.st.mem.size = x.st.mem.size ∧ PrefixIntact c x.st x'.st ∧
+      x'.st.mem.size = (match (generalizing := false) op with | .op (.truncate n) => max n x.st.allocated | _ => x.st.mem.size) ∧
+      PrefixIntact c x.st x'.st ∧
       (∀ m ∈ x.held, m ∈ x'.held → (match op with | .fill i _ => x.held[i]? ≠ some m | _ => True) →
         ∀ j, m.ptrOff ≤ j → j < m.ptrOff + m.ptrSize → x'.st.mem.rd j = x.st.mem.rd j) := by
   have hf := sim_fuel hr hfuel
@@ -395,27 +418,77 @@ theorem sim_step (c : Cfg) (x : CSess) (h : HState) (free : List Seg) (op : COp)
       · exact Rel.build hr.held hr.detached st.abs hc hi hr.nonnull
       · intro m hm _ _
         exact sim_held_intact hr st.live hm (sim_held hr hm).2.1
+    | clear =>
+      have hi := HInv.step c h .clear hr.hinv trivial
+      simp only [cstep, COp.abs, HState.stepOpt, HState.step, hro, Bool.false_eq_true, if_false] at hi ⊢
+      obtain ⟨s', e1, hc, habs, hpre, hsz, _⟩ := clear_refines c x.st free h.lives hr.cinv hro
+      rw [e1]
+      refine ⟨{ st := s', held := [], detached := [] }, [], rfl, ?_, hsz, hpre, ?_⟩
+      · exact Rel.build rfl rfl (by rw [habs, ← hr.abs]; rfl) hc hi (fun m hm => by simp at hm)
+      · intro m _ hm
+        simp at hm
+    | truncate n =>
+      have hi := HInv.step c h (.truncate n) hr.hinv trivial
+      simp only [cstep, COp.abs, HState.stepOpt, HState.step, hro, Bool.false_eq_true, if_false] at hi ⊢
+      have hal : h.a.allocated = x.st.allocated := by rw [← hr.abs]; rfl
+      have hn : max n x.st.allocated + 8192 ≤ TWO32 := by
+        have h1 := hr.cinv.capGuard
+        have h2 : x.st.allocated ≤ x.st.cap := hr.cinv.wf.hi
+        have h3 : n + 8192 ≤ TWO32 := hop
+        omega
+      obtain ⟨s', e1, hcap, habs, hc, hb⟩ := truncate_refines c x.st free h.lives n hr.cinv hro hn
+      rw [e1]
+      refine ⟨{ x with st := s' }, free, rfl, ?_, hcap, ?_, ?_⟩
+      · exact Rel.build hr.held hr.detached (by rw [habs, hr.abs]; simp only [hal]) hc hi hr.nonnull
+      · intro i hi'
+        have h2 : c.dataOffset ≤ x.st.allocated := hr.cinv.wf.mid
+        exact hb i (by omega)
+      · intro m hm _ _ j hj1 hj2
+        obtain ⟨hne, _⟩ := sim_held hr hm
+        have := (hr.hinv.held_ok m (hr.held ▸ hm) hne).2.2
+        exact hb j (by omega)
+
+/-- the capacity after a step stays covered by the fuel, and is unchanged unless the step is a `truncate` -/
+theorem sim_size_cases {c : Cfg} {fuel : Nat} {x x' : CSess} {op : COp}
+    (hsz : x'.st.mem.size = (match (generalizing := false) op with | .op (.truncate n) => max n x.st.allocated | _ => x.st.mem.size))
+    (hfit : op.fits c fuel) (hal : x.st.allocated ≤ x.st.cap) (hfuel : x.st.cap + 2 ≤ fuel) :
+    x'.st.cap + 2 ≤ fuel ∧ (op.isTruncate = false → x'.st.mem.size = x.st.mem.size) := by
+  unfold St.cap at *
+  cases op with
+  | fill i b => exact ⟨by simp only at hsz; omega, fun _ => hsz⟩
+  | op o =>
+    cases o
+    case truncate n =>
+      simp only [COp.fits] at hfit
+      simp only at hsz
+      exact ⟨by omega, fun hh => by simp [COp.isTruncate] at hh⟩
+    all_goals exact ⟨by simp only at hsz; omega, fun _ => hsz⟩
 
 theorem sim_run_cons (c : Cfg) (h : HState) (op : COp) (ops : List COp) :
     h.run c ((op :: ops).filterMap COp.abs) = (h.stepOpt c op.abs).run c (ops.filterMap COp.abs) := by
   cases op <;> simp [List.filterMap_cons, COp.abs, HState.stepOpt, HState.run]
 
-/-- every history: the concrete run succeeds and is related to the abstract run -/
+/-- every history: the concrete run succeeds and is related to the abstract run; the capacity stays covered by
+    the fuel, and is the initial one when the history contains no `truncate` -/
 theorem sim_run (c : Cfg) (x : CSess) (h : HState) (free : List Seg) (ops : List COp) (fuel : Nat)
-    (hr : Rel c x h free) (hro : c.ro = false) (hops : ∀ op ∈ ops, op.ok) (hfuel : x.st.cap + 2 ≤ fuel) :
+    (hr : Rel c x h free) (hro : c.ro = false) (hops : ∀ op ∈ ops, op.ok) (hfits : ∀ op ∈ ops, op.fits c fuel)
+    (hfuel : x.st.cap + 2 ≤ fuel) :
     ∃ x' free', crun c fuel x ops = .ok x' ∧ Rel c x' (h.run c (ops.filterMap COp.abs)) free' ∧
-      x'.st.mem.size = x.st.mem.size ∧ PrefixIntact c x.st x'.st := by
+      (x'.st.cap + 2 ≤ fuel ∧ ((∀ op ∈ ops, op.isTruncate = false) → x'.st.mem.size = x.st.mem.size)) ∧
+      PrefixIntact c x.st x'.st := by
   induction ops generalizing x h free with
-  | nil => exact ⟨x, free, rfl, hr, rfl, fun _ _ => rfl⟩
+  | nil => exact ⟨x, free, rfl, hr, ⟨hfuel, fun _ => rfl⟩, fun _ _ => rfl⟩
   | cons op ops ih =>
     obtain ⟨x1, free1, e1, hr1, hsz1, hpre1, _⟩ :=
       sim_step c x h free op fuel hr hro (hops op (List.mem_cons_self ..)) hfuel
-    obtain ⟨x2, free2, e2, hr2, hsz2, hpre2⟩ := ih x1 (h.stepOpt c op.abs) free1 hr1
-      (fun o ho => hops o (List.mem_cons_of_mem _ ho)) (by unfold St.cap at *; omega)
-    refine ⟨x2, free2, ?_, ?_, hsz2.trans hsz1, fun i hi => (hpre2 i hi).trans (hpre1 i hi)⟩
+    obtain ⟨hf1, hs1⟩ := sim_size_cases hsz1 (hfits op (List.mem_cons_self ..)) hr.cinv.wf.hi hfuel
+    obtain ⟨x2, free2, e2, hr2, ⟨hf2, hs2⟩, hpre2⟩ := ih x1 (h.stepOpt c op.abs) free1 hr1
+      (fun o ho => hops o (List.mem_cons_of_mem _ ho)) (fun o ho => hfits o (List.mem_cons_of_mem _ ho)) hf1
+    refine ⟨x2, free2, ?_, ?_, ⟨hf2, fun hnt => ?_⟩, fun i hi => (hpre2 i hi).trans (hpre1 i hi)⟩
     · simp only [crun, e1, bind, Except.bind]
       exact e2
     · rw [sim_run_cons]; exact hr2
+    · exact (hs2 (fun o ho => hnt o (List.mem_cons_of_mem _ ho))).trans (hs1 (hnt op (List.mem_cons_self ..)))
 
 /-- a freshly constructed arena is related to the initial abstract history state -/
 theorem sim_init (o : Opts) (s : St) (h : o.init = some s) (hcap : o.cap + 8192 ≤ TWO32)
